@@ -17,7 +17,7 @@ func init() {
 		Rule: "expansion: every accelerated setting x adversarial content kind (uniform random, near-uniform, Fibonacci-skewed, 3-bit, text) x every size of the dense ladder 0..300 and of the windows around each internal threshold (+100000, 200001, 400000 in thorough), one Write + Close on a new Writer and (sizes <= 70000) on a Writer reused through Reset after an abandoned first stream of one buffer of incompressible bytes or of text, output <= n + n/32 + 256; " +
 			"effectiveness: every period 1..64 x 3 pattern contents x n in {65536, 65537, 70000, 131072, 200001} x levels {1,2,-1} x both windows, output <= n/32 + 1200; non-trivial = n >= 64",
 		Assumptions: []string{"the bounds are those of the property statement"},
-		Quick:       TierSpec{MaxDev: -1, Shards: 4, ShardDepth: 3, BudgetS: 150},
+		Quick:       TierSpec{MaxDev: -1, Shards: 4, ShardDepth: 3, BudgetS: 600},
 		Thorough:    TierSpec{MaxDev: -1, Shards: 8, ShardDepth: 3, BudgetS: 1200},
 		Harness:     c20Harness,
 	})
